@@ -207,7 +207,8 @@ impl<'a> Parser<'a> {
                         match t {
                             Token::CharData(data) => {
                                 // TODO an origin was specified, should this be legal? definitely confusing...
-                                cx.origin = Some(Name::parse(&data, None)?);
+                                // a relative argument is relative to the origin in force (RFC 1035 5.1)
+                                cx.origin = Some(Name::parse(&data, cx.origin.as_ref())?);
                                 State::StartLine
                             }
                             _ => return Err(ParseError::UnexpectedToken(t)),
